@@ -78,7 +78,24 @@ def install(events, spec):
     old = randomness.RNG
     tap = TapRandom(old.get_seed())
     randomness.RNG = tap
-    _STATE.update(stacks=stack_list, draws=draws, bits=bits, state=state, tap=tap)
+    execs: list = []
+    _STATE.update(stacks=stack_list, draws=draws, bits=bits, state=state, tap=tap, execs=execs)
+
+    # executions: (draw index at entry, test size, timed out) - a timeout flag that differs between two runs which
+    # agree on everything before it is a time-dependent decision, not a hash-order one
+    import pynguin.testcase.execution as ex
+
+    orig_execute = ex.TestCaseExecutor.execute
+
+    def execute(self, test_case):
+        at, size = len(draws), test_case.size()
+        result = orig_execute(self, test_case)
+        state["exec_calls"] = state.get("exec_calls", 0) + 1
+        if len(execs) < MAX_DRAWS:
+            execs.append([at, size, 1 if result.timeout else 0])
+        return result
+
+    ex.TestCaseExecutor.execute = execute
 
     for name in [n for n in os.environ.get("VERIF_FIX", "").split(",") if n]:
         FIXES[name]()
@@ -94,7 +111,8 @@ def finish(events, spec, out):
     st = _STATE["state"]
     events.append({"ev": "monitor-calls", "monitor": "rngtap", "calls": st["calls"], "seed_calls": st["seed_calls"],
                    "still_installed": randomness.RNG is _STATE["tap"], "truncated": st["truncated"]})
-    events.append({"ev": "rngtap", "stacks": _STATE["stacks"], "draws": _STATE["draws"], "bits": _STATE["bits"]})
+    events[-1]["exec_calls"] = st.get("exec_calls", 0)
+    events.append({"ev": "rngtap", "stacks": _STATE["stacks"], "draws": _STATE["draws"], "bits": _STATE["bits"], "execs": _STATE["execs"]})
 
 
 # ------------------------------------------------------------------------------------------------
@@ -155,6 +173,18 @@ def first_divergence(a, b):
     return None
 
 
+def first_exec_divergence(a, b):
+    """First execution record that differs: {"index", "a": [draw_index, size, timeout], "b": [...]} or None."""
+    ea, eb = a.get("execs", []), b.get("execs", [])
+    for i in range(min(len(ea), len(eb))):
+        if ea[i] != eb[i]:
+            return {"index": i, "a": ea[i], "b": eb[i]}
+    if len(ea) != len(eb):
+        n = min(len(ea), len(eb))
+        return {"index": n, "a": ea[n] if len(ea) > n else None, "b": eb[n] if len(eb) > n else None}
+    return None
+
+
 # ------------------------------------------------------------------------------------------------
 # candidate repairs (diagnosis: applied one after the other to expose the next divergence source)
 # ------------------------------------------------------------------------------------------------
@@ -174,3 +204,50 @@ def brk(name):
         BREAKS[name] = fn
         return fn
     return deco
+
+
+@fix("resolve-head-sorted")
+def _fix_resolve_head_sorted():
+    """testcase.py TestCase._resolve_head_references: iterate sorted(stmt.used_variables())."""
+    import pynguin.testcase.testcase as tc
+    from pynguin.utils import randomness
+
+    def _resolve_head_references(self, stmt, head_types, rename, dropped):
+        for name in sorted(stmt.used_variables()):
+            if name in dropped:
+                return False
+            if name in rename:
+                continue
+            if name in head_types:
+                head_type = head_types[name]
+                candidates = self.variables_of_type(head_type) if head_type is not None else []
+                if not candidates:
+                    return False
+                rename[name] = randomness.choice(candidates)
+        return True
+
+    tc.TestCase._resolve_head_references = _resolve_head_references  # noqa: SLF001
+
+
+@fix("empty-test-timeout")
+def _fix_empty_test_timeout():
+    """execution.py TestCaseExecutor.execute: thread.join(timeout=min(max, per_statement * size)) is join(0) for an
+    empty test case, a race between the worker thread and is_alive(); repair = at least one statement's worth."""
+    import threading
+    import types
+
+    import pynguin.testcase.execution as ex
+
+    class Thread(threading.Thread):
+        def join(self, timeout=None):
+            if timeout == 0:
+                timeout = 1
+            return super().join(timeout)
+
+    class Shim(types.ModuleType):
+        def __getattr__(self, name):
+            return getattr(threading, name)
+
+    shim = Shim("threading_shim")
+    shim.Thread = Thread
+    ex.threading = shim
